@@ -77,6 +77,18 @@ def qualifier(inv, case, rec):
             defined = sorted(x.get('loc') for x in sh.get('reloads', []))
             if used_locs and len(used_locs) <= len(defined) and set(used_locs) <= set(defined) and any(used_locs.count(x) > defined.count(x) for x in set(used_locs)):
                 return 'one-reload-of-the-shift-used-twice'
+    if inv == 'ConditionalDistinct':
+        # as many (or fewer) recharge stops as the shift has stations, all of them at defined stations, one station twice
+        for t in rec.get('tours', []):
+            try:
+                sh = rec['vehicles'][t['vix'] - 1]['shifts'][t['shift'] - 1]
+            except (IndexError, KeyError):
+                continue
+            sig = lambda x: (x.get('loc'), x.get('tag'))
+            used = [(a.get('loc'), a.get('tag'), a['end'] - a['start']) for a in t['flat'] if a['type'] == 'recharge']
+            defined = [(x.get('loc'), x.get('tag'), x.get('dur')) for x in sh.get('recharge', {}).get('stations', [])]
+            if used and set(used) <= set(defined) and any(used.count(x) > defined.count(x) for x in set(used)):
+                return 'one-recharge-station-of-the-shift-used-twice'
     if inv == 'PartitionJobs' and case.get('problem', {}).get('plan', {}).get('relations'):
         served = {a['jix'] for t in rec.get('tours', []) for a in t['flat'] if a.get('jix', 0) > 0}
         listed = {u['jix'] for u in rec.get('unassigned', [])}
